@@ -222,6 +222,13 @@ func (s *Session) exportImport(ws map[string]*tracew.Writer, emitX func(Ev)) (nc
 		return nil, err
 	}
 	cp := exp.ConsensusParams
+	// the new chain starts when the old one was exported - or later: now and then the network stays down for a while (1 .. 8 ticks),
+	// long enough for scheduled things (unlocks, jail times, the electing period) to fall due before the first block
+	if s.R.Intn(3) == 0 {
+		s.Tick += int64(1 + s.R.Intn(8))
+	}
+	restart := a.TimeAt(s.Tick)
+	b.InitTime = &restart
 	var initRes *abci.ResponseInitChain
 	func() {
 		defer func() {
